@@ -353,7 +353,9 @@ fn dbscan_valid_params(r: &mut Runner) {
     r.inst("f64/L1/balltree/eps1.3/min3", |o| go::<f64, _>(o, 3, 1.3, L1Dist, CommonNearestNeighbour::BallTree));
     r.inst("f32/Lp(3)/linear/eps1.1/min5", |o| go::<f32, _>(o, 5, 1.1, LpDist(3.0f32), CommonNearestNeighbour::LinearSearch));
     r.inst("f64/L2/kdtree/eps1e30/min2", |o| go::<f64, _>(o, 2, 1e30, L2Dist, CommonNearestNeighbour::KdTree));
-    r.inst("f64/L2/linear/eps_min_positive/min_huge", |o| go::<f64, _>(o, usize::MAX, f64::MIN_POSITIVE, L2Dist, CommonNearestNeighbour::LinearSearch));
+    // (min_points = usize::MAX makes DbscanValidParams::transform panic with `capacity overflow`
+    //  - Vec::with_capacity(min_points) - which is not C19's subject; 2^20 is the large point here)
+    r.inst("f64/L2/linear/eps_min_positive/min_2pow20", |o| go::<f64, _>(o, 1 << 20, f64::MIN_POSITIVE, L2Dist, CommonNearestNeighbour::LinearSearch));
 }
 
 fn optics_unit(r: &mut Runner) {
@@ -401,6 +403,17 @@ fn optics_sample(r: &mut Runner) {
         // Sample's PartialEq only looks at the reachability distance; it is still required to hold
         round_trip(o, &Spec::full(&obs), &s);
     }
+    r.inst("f64/zero_distances(duplicate points)", |o| {
+        let x: Array2<f64> = ndarray::array![[1.0, 1.0], [1.0, 1.0], [1.0, 1.0], [4.0, 4.0]];
+        let res = Optics::params::<f64>(2).tolerance(0.5).transform(x.view()).expect("valid");
+        let s: Sample<f64> = res.iter().find(|s| *s.core_distance() == Some(0.0) && *s.reachability_distance() == Some(0.0)).cloned().unwrap_or_else(|| o.machinery("no OPTICS sample with both distances exactly 0"));
+        let obs = |s: &Sample<f64>| {
+            let mut ob = Ob::new();
+            sample_obs(&mut ob, "", s);
+            ob.done()
+        };
+        round_trip(o, &Spec::full(&obs), &s);
+    });
     for w in ["first(no reachability)", "core+reachable", "noise(no core distance)"] {
         r.inst(&format!("f64/{}", w), |o| go::<f64>(o, w));
         r.inst(&format!("f32/{}", w), |o| go::<f32>(o, w));
